@@ -387,10 +387,18 @@ func sliceEqualityLint(p *Prog, r *Report, rule string) {
 		return
 	}
 	nCmp := 0
+	// the comparisons may sit in a predicate the look-up applies to each item ("filter.matches(&item)")
+	var sites []ssa.CallInstruction
 	forEachCall(idx, func(site ssa.CallInstruction) {
+		sites = append(sites, site)
+		if h := site.Common().StaticCallee(); h != nil && h.Blocks != nil && strings.HasPrefix(fnPkgPath(h), repoMod) && !isExportedFn(originOf(h)) && h != idx {
+			forEachCallOwn(h, func(s2 ssa.CallInstruction) { sites = append(sites, s2) })
+		}
+	})
+	for _, site := range sites {
 		c, ok := site.(*ssa.Call)
 		if !ok || len(c.Call.Args) < 2 {
-			return
+			continue
 		}
 		mentions := false
 		for _, a := range c.Call.Args {
@@ -399,7 +407,7 @@ func sliceEqualityLint(p *Prog, r *Report, rule string) {
 			}
 		}
 		if !mentions {
-			return
+			continue
 		}
 		nCmp++
 		callee := c.Call.StaticCallee()
@@ -417,7 +425,7 @@ func sliceEqualityLint(p *Prog, r *Report, rule string) {
 			}
 		}
 		r.Check(rule, fmt.Sprintf("%s|address-comparison#%d", p.StableName(idx), nCmp), okPrim, p.InstrPos(c), "addresses compared by "+name)
-	})
+	}
 	r.Floor(rule, "address comparisons in the use-case look-up", nCmp, 1)
 }
 
@@ -474,6 +482,87 @@ func writeBackIndexRule(p *Prog, r *Report, rule string) {
 				r.Check(rule, fmt.Sprintf("%s|write-back#%d", FnName(originOf(fn)), idx), ia1.Index == ia2.Index, p.InstrPos(st), fmt.Sprintf("element read at index %s is stored back at index %s", Path(ia1.Index), Path(ia2.Index)))
 			}
 		}
+	}
+	// the write-back may be delegated to a helper that receives the index and the modified copy
+	for _, fn := range p.RepoFns("model", "spine") {
+		idx := 0
+		forEachCallOwn(fn, func(site ssa.CallInstruction) {
+			c, ok := site.(*ssa.Call)
+			if !ok {
+				return
+			}
+			h := c.Call.StaticCallee()
+			if h == nil || h.Blocks == nil || !strings.HasPrefix(fnPkgPath(h), repoMod) || isExportedFn(originOf(h)) {
+				return
+			}
+			args := argsWithRecv(&c.Call)
+			for k, a := range args {
+				ld, ok := a.(*ssa.UnOp)
+				if !ok {
+					continue
+				}
+				al, ok := ld.X.(*ssa.Alloc)
+				if !ok {
+					continue
+				}
+				eld, ok := singleStore(al).(*ssa.UnOp)
+				if !ok {
+					continue
+				}
+				ia1, ok := eld.X.(*ssa.IndexAddr)
+				if !ok || k >= len(h.Params) {
+					continue
+				}
+				// in the helper: parameter k stored at list[index parameter j] of a clone of the same list
+				for _, hb := range h.Blocks {
+					for _, hi := range hb.Instrs {
+						st, ok := hi.(*ssa.Store)
+						if !ok {
+							continue
+						}
+						ia2, ok := st.Addr.(*ssa.IndexAddr)
+						if !ok {
+							continue
+						}
+						val := st.Val
+						if u, isU := val.(*ssa.UnOp); isU {
+							if pa, isA := u.X.(*ssa.Alloc); isA {
+								if sp := spillParam(pa); sp != nil {
+									val = sp
+								}
+							}
+						}
+						if val != ssa.Value(h.Params[k]) {
+							continue
+						}
+						same := false
+						last := func(s string) string {
+							if i := strings.LastIndex(s, "."); i >= 0 {
+								return s[i+1:]
+							}
+							return s
+						}
+						for _, src := range shallowCloneSources(ia2.X, 0) {
+							if last(Path(src)) == last(Path(ia1.X)) && !strings.HasPrefix(Path(src), "v:") {
+								same = true
+							}
+						}
+						if !same {
+							continue
+						}
+						okIdx := false
+						for j, q := range h.Params {
+							if ssa.Value(q) == ia2.Index && j < len(args) && args[j] == ia1.Index {
+								okIdx = true
+							}
+						}
+						idx++
+						n++
+						r.Check(rule, fmt.Sprintf("%s|write-back-via-helper#%d", FnName(originOf(fn)), idx), okIdx, p.InstrPos(c), fmt.Sprintf("element read at index %s is handed to %s, which stores it at index %s", Path(ia1.Index), FnName(originOf(h)), Path(ia2.Index)))
+					}
+				}
+			}
+		})
 	}
 	r.Floor(rule, "copy-modify-write-back sites", n, 1)
 }
